@@ -21,11 +21,11 @@ def plan(tier: str, seed: int) -> Plan:
         conds.append(Condition(f"names:{q}", "pipeline", H, "pipeline", {"qtext": q, "doc": 0}, T,
                                bounds="document with members '1','+1','-1','01','~','/','','é' (fixed), symbolic int leaves, array length<=2"))
     for q in (Q1 if thorough else Q1[:4]):
-        for lo, hi in ([(0, 3), (4, 7), (8, 11), (12, 15)] if thorough else [(0, 15)]):
+        for lo, hi in ([(0, 3), (4, 7), (8, 11), (12, 14), (15, 17)] if thorough else [(0, 8), (9, 17)]):
             conds.append(Condition(f"pool:{q}:{lo}-{hi}", "pipeline", H, "pipeline",
                                    {"qtext": q, "doc": 1, "alo": lo, "ahi": hi, "next_only": not thorough}, T * 3, required=False,
-                                   bounds="two distinct member names chosen by symbolic indices from a pool of 16 look-alike / escaped / non-ASCII "
-                                          "names (enumeration; quick: 16 adjacent pairs, thorough: all 240 ordered pairs)"))
+                                   bounds="two distinct member names chosen by symbolic indices from a pool of 18 look-alike / escaped / non-ASCII "
+                                          "names (enumeration; quick: 18 adjacent pairs, thorough: all 306 ordered pairs)"))
     for q in Q2:
         conds.append(Condition(f"arrays:{q}", "pipeline", H, "pipeline", {"qtext": q, "doc": 2}, T,
                                bounds="array document with an object whose members are '0' and '1'; symbolic leaves, inner array length<=2"))
@@ -49,5 +49,5 @@ def plan(tier: str, seed: int) -> Plan:
             "`remove` through the match's pointer (object and text form) give the document edited at exactly the match's location "
             "(reference: edit a deep copy by the match's parts), and the original document is untouched by matching."),
         assumptions=["member names are concrete (they pass through json.dumps in the selectors)"],
-        outside=["the keys selector", "names outside the 16-name pool"],
+        outside=["the keys selector", "names outside the 18-name pool"],
     )
